@@ -155,7 +155,7 @@ theorem C15_no_restamp (rnd : Rat → Rat) (o : Oracle) (k : Nat) (globalDry : B
   intro e he obj hc
   have := scanGroup_entries rnd o k globalDry cfg st0 g view h nowMock nowReal e he
   cases this with
-  | metrics id b => cases hc
+  | metrics n hn b => cases hc
   | force hf => cases hf <;> cases hc
   | reap hf => cases hf <;> cases hc
   | taint hd c hcm ha =>
